@@ -9,4 +9,16 @@ if [ ! -x bin/otrcheck ] || [ -n "$(find checker -newer bin/otrcheck -name '*.go
   mkdir -p bin
   (cd checker && go build -o ../bin/otrcheck .) || { echo "cannot build checker" >&2; exit 2; }
 fi
-exec bin/otrcheck -property "$1" -tier "${2:-quick}" -repo "${OTR_REPO:-/repo}" -verif "$(pwd)"
+mkdir -p evidence/violations
+LOG="evidence/violations/$1-run.log"
+bin/otrcheck -property "$1" -tier "${2:-quick}" -repo "${OTR_REPO:-/repo}" -verif "$(pwd)" > "$LOG" 2>&1
+rc=$?
+cat "$LOG"
+if [ $rc -ne 0 ] && [ $rc -ne 1 ]; then
+  # the analysis itself did not finish (tree does not load, analyser crashed): nothing was established — fail closed
+  cp "$LOG" "evidence/violations/$1-not-analysed.txt"
+  echo "VIOLATION property=$1 replay=$(pwd)/evidence/violations/$1-not-analysed.txt"
+  exit 1
+fi
+rm -f "$LOG"
+exit $rc
